@@ -38,6 +38,9 @@ CLAIMED = {
  'C06': dict(technique='whole-program who-may-write scan, hypothesis folding of the failure latch / state word / buffer accessors, dominance rule for the half-duplex mode switch',
              text='Static: only the fail function and the buffer-reset functions write err; nothing moves a failed engine out of FAILED; current_state reports CLOSED alone when closed and each flag iff its buffer accessor is non-NULL; accessors return NULL when failed / before application data is allowed; the shared-buffer mode switch is the first effect of recvrec_ack and sendpld_ack on every path. Does not decide the buffer-register arithmetic.',
              note='Trusted: clang/opt 14, debug-info layouts, sa/wmw.py.'),
+ 'C08': dict(technique='interprocedural, context-sensitive secret-taint (information-flow) analysis over LLVM IR with a region/view/cell memory model; declassification only at guarded source marks',
+             text='Static, IR level: for each listed constant-time entry point (RSA private i15/i31, EC multiplication of all implementations, bitsliced AES/DES, ChaCha20, Poly1305, GHASH, conditional copy/swap, ...) no secret-labelled value reaches a branch/switch condition, a memory address or copy length, a division operand, an indirect-call target or a non-constant-time routine. Does not decide machine code or micro-architectural leaks.',
+             note='Trusted: clang 14 IR, sa/flow.py (assumptions A, B, C listed in the evidence), the policy table of secret inputs in sa/checks/c08.py, the declassification marks committed in /repo (guard BR_VERIF_HOOKS).'),
  'C10': dict(technique='hypothesis folding (LLVM constant/range propagation under an added assumption) + must-conjunct dataflow on SSA, per implementation, with negative controls',
              text='Static: each listed validity result / length condition of the RSA public, private, verify, decrypt, unpad and key-derivation functions (i15, i31, i32, i62), when it signals failure, forces the failure return on every path; each padding-structure contribution is a conjunct of the verdict (loop-aware must-dataflow). Decides rejection discipline, not arithmetic correctness.',
              note='Trusted: clang/opt 14, the obligation table (sa/checks/c10.py), debug-info variable names as site selectors. Host configuration only in quick tier.'),
@@ -60,12 +63,13 @@ m = dict(
  setup_cmd='mkdir -p bin && clang++ $(llvm-config-14 --cxxflags) -fno-rtti tools/irdump.cc -o bin/irdump /usr/lib/llvm-14/lib/libLLVM-14.so',
  hooks=dict(guard='BR_VERIF_HOOKS', enable='checks compile every unit to LLVM IR with -DBR_VERIF_HOOKS (declassification marks only; never linked or run)',
             baseline_off_cmd='make -C /repo -j16 >/dev/null && cd /repo/test/x509 && ../../build/testx509',
-            source_commits=[], add_only=True),
+            source_commits=['da220fc'], add_only=True),
  engines=[
   dict(name='IRF', path='tools/irdump.cc, sa/irf.py, sa/build.py', serves_properties=sorted(CLAIMED), kind_free_text='LLVM-IR facts (CFG, SSA, debug-info layouts) for every unit of the real build'),
   dict(name='T0', path='sa/t0.py', serves_properties=['C01', 'C03', 'C04', 'C05', 'C19'], kind_free_text='decoder + analyses for the T0 bytecode embedded in the generated interpreters'),
   dict(name='TAB', path='sa/tab.py', serves_properties=['C01', 'C11', 'C12', 'C13'], kind_free_text='constants lifted from IR vs references generated from the standards'),
   dict(name='WMW', path='sa/wmw.py', serves_properties=['C06', 'C20'], kind_free_text='who-may-write / exactly-once structural rules over the whole program IR'),
+  dict(name='FLOW', path='sa/flow.py', serves_properties=['C08'], kind_free_text='label propagation (taint / may-dependence) over the IR facts of the whole program'),
   dict(name='FOLD', path='sa/fold.py, sa/oblig.py', serves_properties=['C02', 'C03', 'C05', 'C06', 'C10', 'C11', 'C14', 'C20'], kind_free_text='hypothesis folding with opt-14 as abstract interpreter; must-conjunct dataflow'),
  ],
  checks=[dict(property_id=p, quick_cmd='./check %s --tier quick' % p, thorough_cmd='./check %s --tier thorough' % p,
